@@ -89,6 +89,17 @@ class C:
 class D(C, Mixin):
     pass
 """, ["C"], {"C": "none"}),
+    # types a (lazy) parent declares only through its decorator, re-listed by name in the child: they exist only once the parent is bootstrapped
+    "decorator_typed_parent": ("""
+@spec_class(attrs_typed={"x": int, "tags": List[str]}, init_overflow_attr="extra"{B})
+class P:
+    x = 1
+    tags = []
+
+@spec_class(attrs={"x", "extra"}{B})
+class C(P):
+    x = 5
+""", ["P", "C"], {"P": "none", "C": "P"}),
     # a plain subclass whose own __new__ forwards its arguments up the MRO (plain Python: object.__new__ refuses them)
     "sub_new_forwards": ("""
 {D}
@@ -121,7 +132,7 @@ TOP = {"update", "transform", "reset", "__init__", "__repr__", "__eq__", "__spec
 def build(name, eager):
     src, classes, parent = SCENARIOS[name]
     ns = {"__name__": f"scn_{name}"}
-    exec(HEADER + textwrap.dedent(src).replace("{D}", "@spec_class(bootstrap=True)" if eager else "@spec_class"), ns)
+    exec(HEADER + textwrap.dedent(src).replace("{D}", "@spec_class(bootstrap=True)" if eager else "@spec_class").replace("{B}", ", bootstrap=True" if eager else ""), ns)
     return ns, classes, parent
 
 
